@@ -318,3 +318,32 @@ def check_memo_soundness(repo, chk, rule="M-sound"):
             chk.violation(rule, f.key, "reads:" + ",".join(reads), "memoised function depends on the model state cell(s) %s: after the state changes (e.g. set_params in a fit) the stale first result is still returned" % reads, file=f.mod.rel, line=f.lineno)
     if n < 20:
         raise AnalysisError("%s: only %d memoised functions found" % (rule, n))
+    # value-keyed memo: functools.lru_cache on a METHOD keys the table by `self` through __hash__ / __eq__.  The decay
+    # classes compare by particle NAMES, so an entry is shared by every equal-named object of the process (a second
+    # model, a spin scan re-using a resonance name).  Safe only if the result is a function of the names alone.
+    VALUE_KEYED_SAFE = {
+        "DecayChain.topology_id": "built from sorted_table(): final-state names below each particle - the equality key itself",
+    }
+    for f in _all_functions(repo):
+        decos = [norm_text(d.func if isinstance(d, ast.Call) else d).split(".")[-1] for d in f.node.decorator_list]
+        if not any(d in ("lru_cache", "cache") for d in decos) or f.cls is None:
+            continue
+        eq_owner = next((c for c in f.cls.mro if "__eq__" in c.methods or "__hash__" in c.methods), None)
+        if eq_owner is None:
+            continue
+        short = "%s.%s" % (f.cls.name, f.name)
+        if short in VALUE_KEYED_SAFE:
+            chk.instance(rule, "%s: lru_cache keyed by the object's value (%s.__eq__); frozen as safe: %s" % (f.key, eq_owner.name, VALUE_KEYED_SAFE[short]), nontrivial=False)
+            continue
+        same_name = repo.func_by_name.get(f.name, [])
+        if len([g for g in same_name if g.cls is not None]) != 1:
+            chk.info("%s: lru_cache on a method of the value-keyed class %s (equal-named objects share entries); the method name is not unique in the repository, call sites not decided" % (f.key, f.cls.name))
+            continue
+        sites = []
+        for g in _all_functions(repo):
+            for c in ast.walk(g.node):
+                if isinstance(c, ast.Call) and isinstance(c.func, ast.Attribute) and c.func.attr == f.name:
+                    sites.append((g, c))
+        chk.oblige(rule, "%s: lru_cache on a method of the value-keyed class %s (objects with equal particle names share one entry) - call sites: %d" % (f.key, f.cls.name, len(sites)), not sites)
+        for g, c in sites[:3]:
+            chk.violation(rule, g.key, "value-keyed:%s" % f.name, "calls %s, which is memoised with functools.lru_cache on a class that compares by particle names (%s.__eq__): the entry computed for the first object with these names is returned for every later one - another model of the same process, a spin scan that re-uses a resonance name - although the result depends on more than the names" % (f.key, eq_owner.name), file=g.mod.rel, line=c.lineno)
